@@ -23,8 +23,9 @@ QVAL = {"pos": None, "zero": 0.0, "negative": -1.0}
 def execute(ob):
     pt = dict(ob["pt"])
     pt["tmc"] = ob["tmc"]
+    pt["ren"], pt["fact"] = ob.get("sv", "both") in ("both", "ren"), ob.get("sv", "both") in ("both", "fact")
     name = f"{ob['name']}_{pt['flav']}"
-    line = dict(oid=ob["oid"], pt=ob["pt"], name=ob["name"], tmc=ob["tmc"], xc=ob["xc"], qc=ob["qc"],
+    line = dict(oid=ob["oid"], pt=ob["pt"], name=ob["name"], tmc=ob["tmc"], xc=ob["xc"], qc=ob["qc"], sv=ob.get("sv", "both"),
                 predicted=ob["predicted"], cls="OK", etype="", finite=True, msg="")
     th, o = cells.build(pt, [name])
     kins = o["observables"][name]
@@ -59,6 +60,8 @@ def execute(ob):
 def pick(ob, seed, tier):
     """Deterministic covering sample of the expensive orders (rotates with VERIF_SEED)."""
     pto = ob["pt"]["pto"]
+    if ob.get("sv", "both") != "both":
+        return True
     if tier == "quick" and ob["xc"] == "in" and ((ob["pt"]["proc"] == "CC") != (abs(ob["pt"]["proj"]) == 12)):
         return False  # quick: electrons for EM/NC, neutrinos for CC
     if tier != "quick":
@@ -85,7 +88,7 @@ def run(ctx):
     base = dict(PROCS={"EM", "NC", "CC"}, PROJS={"e-", "nu"} if q else {"e-", "e+", "nu", "nubar"},
                 FLAVS={"light", "total", "charm", "bottom", "top"}, SCHEMES=set(schemes),
                 ORDERS={"00", "11", "22", "33"} if q else {"00", "11", "22", "33", "23", "32", "12"},
-                TMCS={0, 1} if q else {0, 1, 2, 3}, XCS={"in"}, QCS={"pos"}, PARTS={"full"})
+                TMCS={0, 1} if q else {0, 1, 2, 3}, XCS={"in"}, QCS={"pos"}, PARTS={"full"}, SVS={"both"})
     cfgs = [common.cfg_text(dict(base, KINDS={k}), spec=None) for k in SF_KINDS]
     # FONLL parts, cross sections, out-of-domain kinematics
     cfgs.append(common.cfg_text(dict(base, KINDS={"F2", "F3"}, SCHEMES={"FONLLS4", "FONLL03"}, PARTS={"massless", "massive"},
@@ -96,10 +99,15 @@ def run(ctx):
                                      FLAVS={"total"}, PROCS={"NC"}, TMCS={0, 1, 2, 3},
                                      XCS={"in", "zero", "negative", "above1", "belowgrid", "one"},
                                      QCS={"pos", "zero", "negative"}), spec=None))
+    # the scale-variation switches in every combination
+    cfgs.append(common.cfg_text(dict(base, KINDS={"F2", "F3", "XSHERANC"} if q else {"F2", "FL", "F3", "g1", "XSHERANC", "XSCHORUSCC"},
+                                     SCHEMES={"ZM4", "FFNS3"} if q else {"ZM4", "FFNS3", "FFN03", "FONLLS4"},
+                                     ORDERS={"11", "22"} if q else {"00", "11", "22", "33"}, PROJS={"e-", "nu"}, FLAVS={"total"} if q else {"total", "charm"},
+                                     TMCS={0, 1}, SVS={"ren", "fact", "none"}), spec=None))
     obs = ctx.tlc_emit_many("Emit_C16", cfgs)
     seen, todo = set(), []
     for o in obs:
-        o["oid"] = common.oid_of("C16", {k: o[k] for k in ("pt", "name", "tmc", "xc", "qc")})
+        o["oid"] = common.oid_of("C16", {k: o[k] for k in ("pt", "name", "tmc", "xc", "qc")} | ({"sv": o["sv"]} if o["sv"] != "both" else {}))
         if o["oid"] in seen:
             continue
         seen.add(o["oid"])
@@ -127,7 +135,7 @@ def run(ctx):
         o, ln = byoid[oid]
         pt = o["pt"]
         key = (f"{pt['proc']}:{o['name']}_{pt['flav']}:{pt['fns']}{pt['nfff']}:nfzm{pt['nfzm']}:pto{pt['pto']}.{pt['ptoEvol']}:"
-               f"tmc{o['tmc']}:{o['xc']}/{o['qc']}:{clause}")
+               f"tmc{o['tmc']}{'' if o['sv'] == 'both' else '.sv_' + o['sv']}:{o['xc']}/{o['qc']}:{clause}")
         ctx.violation(key, f"{o['name']}_{pt['flav']} {pt['proc']} {pt['fns']}(NfFF={pt['nfff']}) PTODIS={pt['pto']} PTO={pt['ptoEvol']} "
                       f"TMC={o['tmc']} x:{o['xc']} Q2:{o['qc']}: {clause} {ln['msg']}", dict(kind="C16", obligation=o, observed=ln))
     # the grammar of observable names (Names.tla): which names are a documented configuration at all
